@@ -321,6 +321,12 @@ func (g *Genome) getLastNodeId() (int, error) {
 		return -1, errors.New("genome has no nodes")
 	}
 	id := g.Nodes[len(g.Nodes)-1].Id
+	// do not rely on the nodes being ordered by id
+	for _, n := range g.Nodes {
+		if n.Id > id {
+			id = n.Id
+		}
+	}
 	// check control genes
 	for _, cg := range g.ControlGenes {
 		if cg.ControlNode.Id > id {
@@ -336,14 +342,21 @@ func (g *Genome) getNextGeneInnovNum() (int64, error) {
 	// check connection genes
 	if len(g.Genes) > 0 {
 		innNum = g.Genes[len(g.Genes)-1].InnovationNum
+		// do not rely on the genes being ordered by innovation number
+		for _, gn := range g.Genes {
+			if gn.InnovationNum > innNum {
+				innNum = gn.InnovationNum
+			}
+		}
 	} else {
 		return -1, errors.New("genome has no Genes")
 	}
 	// check control genes if any
 	if len(g.ControlGenes) > 0 {
-		cInnNum := g.ControlGenes[len(g.ControlGenes)-1].InnovationNum
-		if cInnNum > innNum {
-			innNum = cInnNum
+		for _, cg := range g.ControlGenes {
+			if cg.InnovationNum > innNum {
+				innNum = cg.InnovationNum
+			}
 		}
 	}
 	return innNum + int64(1), nil
